@@ -62,6 +62,7 @@ func (c *cbCount) fingerprint() string {
 }
 
 type taskSUT struct {
+	pf      bool // Shutdown is also given PanicOnModificationsAfterShutdown
 	te      *hive.TaskExecutor[int]
 	gate    *sched.Gate
 	base    time.Time
@@ -83,6 +84,7 @@ func (s *taskSUT) Reset(cfg core.Ev) {
 	s.gate = sched.NewGate()
 	s.base = time.Now()
 	s.n, s.max, s.ids = 0, core.Int(cfg, "max"), core.Int(cfg, "ids")
+	s.pf = core.Bool(cfg, "pf")
 	s.lastDue = 1
 	if s.max > 4 {
 		s.lastDue = lastDueTrace
@@ -105,7 +107,10 @@ func (s *taskSUT) drain() {
 		}
 	}
 	te := s.te
-	go te.Shutdown(hive.CancelPendingElements, hive.DontWaitForShutdown)
+	go func() {
+		defer func() { _ = recover() }() // (a second Shutdown panics when the first one carried PanicOnModificationsAfterShutdown)
+		te.Shutdown(hive.CancelPendingElements, hive.DontWaitForShutdown)
+	}()
 	s.sdT.Abandon()
 	s.te = nil
 }
@@ -122,20 +127,32 @@ func (s *taskSUT) Apply(e core.Ev) (any, any) {
 		k := s.n
 		gate, cb := s.gate, s.cb
 		gate.Hold(cbPoint(k))
-		h := s.te.ExecuteAt(core.Int(e, "id"), func() {
-			cb.mu.Lock()
-			cb.started[k]++
-			cb.mu.Unlock()
-			gate.Wait(cbPoint(k))
-			cb.mu.Lock()
-			cb.ended[k]++
-			cb.mu.Unlock()
-		}, s.when(core.Int(e, "t"), k))
+		panicked := false
+		var h *hive.ScheduledTask
+		func() {
+			defer func() {
+				if rec := recover(); rec != nil {
+					panicked = true // (Shutdown was given PanicOnModificationsAfterShutdown)
+				}
+			}()
+			h = s.te.ExecuteAt(core.Int(e, "id"), func() {
+				cb.mu.Lock()
+				cb.started[k]++
+				cb.mu.Unlock()
+				gate.Wait(cbPoint(k))
+				cb.mu.Lock()
+				cb.ended[k]++
+				cb.mu.Unlock()
+			}, s.when(core.Int(e, "t"), k))
+		}()
 		s.handles = append(s.handles, h)
 		if h != nil {
 			r = "ok"
 		} else {
 			r = "refused"
+		}
+		if panicked {
+			r = "panic"
 		}
 	case "Cancel":
 		r = fmt.Sprint(s.te.Cancel(core.Int(e, "id")))
@@ -152,6 +169,9 @@ func (s *taskSUT) Apply(e core.Ev) (any, any) {
 			fl = []hive.ShutdownFlag{hive.IgnorePendingTimeouts}
 		case "both":
 			fl = []hive.ShutdownFlag{hive.CancelPendingElements, hive.IgnorePendingTimeouts}
+		}
+		if s.pf {
+			fl = append(fl, hive.PanicOnModificationsAfterShutdown)
 		}
 		te := s.te
 		s.sd, s.sdBusy = true, true
@@ -189,9 +209,9 @@ func (s *taskSUT) Apply(e core.Ev) (any, any) {
 
 func (s *taskSUT) RandomCfg(r *rand.Rand) core.Ev {
 	if r.Intn(3) == 0 {
-		return core.Ev{"workers": 1 + r.Intn(3), "ids": 1, "max": 8}
+		return core.Ev{"workers": 1 + r.Intn(3), "ids": 1, "max": 8, "pf": r.Intn(2) == 0}
 	}
-	return core.Ev{"workers": 1 + r.Intn(3), "ids": 2, "max": 7}
+	return core.Ev{"workers": 1 + r.Intn(3), "ids": 2, "max": 7, "pf": r.Intn(2) == 0}
 }
 
 func (s *taskSUT) RandomStimulus(r *rand.Rand) core.Ev {
